@@ -602,7 +602,7 @@ func TestVerif_C03_Wire(t *testing.T) {
 func TestVerif_C03_ManyOutstanding(t *testing.T) {
 	m := mon.New("C03", "outstanding")
 	defer m.Finish(t)
-	m.Rule("outstanding: A pipelines N in {1..64, 1000..1100, 1500..6000 (thorough also 20000..70000)} requests with pairwise distinct transaction ids " +
+	m.Rule("outstanding: A pipelines N in {1..64, 1000..1100, 1500..6000, once 2^20+k (thorough also 20000..70000)} requests with pairwise distinct transaction ids " +
 		"(i+1, i+1.5, i*2^33, PRNG doubles) before B answers any; B then answers all in PRNG order, some twice; every first _result must decode as the " +
 		"response type of its request, every second one must be an error; distinct = N bucket x id family x outcome")
 	n := m.N(24, 400)
@@ -624,6 +624,9 @@ func TestVerif_C03_ManyOutstanding(t *testing.T) {
 			}
 		}
 		fam := r.Intn(4)
+		if i == 7 {
+			N, fam = 1<<20+r.Range(1, 5000), 0 // more than a million requests outstanding at once, ids 1, 2, 3, ...
+		}
 		rep := map[string]interface{}{"case": i, "N": N, "idfamily": fam}
 		m.Guard("rtmp.outstanding", nil, func() {
 			ca, cb, _, _ := vnet.Pair(vnet.PickSeg(r), vnet.SegWhole())
